@@ -3,6 +3,7 @@ mod common;
 mod mock;
 mod props;
 mod sclient;
+mod sserver;
 
 use common::*;
 use std::time::Instant;
